@@ -3,6 +3,10 @@
    request (the lattice point TLC generated, see DRKeyAdmit.tla), executed by the driver against the
    real control/drkey/grpc.Server handlers with a recording engine, plus what happened:
 
+     via      : "direct" the handler method of grpc.Server was called with a peer.Peer in the context;
+                "connect" the request went through the generated connect client, the handler chain the
+                control service registers (pkg/connect.AttachPeer -> connect mux -> control/drkey/connect.Server)
+                in process: peer address and TLS state are extracted by the real code
      served   : the handler returned a response (no error)
      ncalls   : number of engine operations the handler invoked
      asked    : abstract projection of the (last) engine operation: which method, for which
@@ -30,7 +34,8 @@ Asked(r) == [m |-> r.asked.m, proto |-> r.asked.proto, src |-> r.asked.src, dst 
 
 Init == l = 1 /\ nserved = 0 /\ nbad = 0
 
-Bad(key) == PrintT(<<"VERIF-BAD", l, key>>) /\ nbad' = nbad + 1
+Via == IF R.via = "connect" THEN ":connect" ELSE ""
+Bad(key) == PrintT(<<"VERIF-BAD", l, key \o Via>>) /\ nbad' = nbad + 1
 Drift(key) == PrintT(<<"VERIF-DRIFT", l, key>>)
 
 Req ==
